@@ -5,6 +5,9 @@
 // invariant names the picker's private cursors and therefore loses its anchor when the picker's state is refactored):
 // this file touches ONLY MovePicker::new / new_loud / next, so it keeps deciding after such a refactor -- at the price of a
 // small list bound (the whole stream is unrolled in one query).
+// MEASURED: does NOT fit -- 2 captures + 1 quiet: 10 GB exceeded after 170 s; 1 capture + 1 quiet: > 7 GB and growing after
+// 5 min (each call of next unrolls the 11-stage loop around the selection loops).  Kept *experimental*; a refactor of the
+// picker's private state therefore still ends as ANCHOR-LOST (exit 2), not as a decided violation (seed C10c).
 // The whole MovePicker (struct, stage enum, impl block -- whatever items it consists of -- text copied verbatim from
 // /repo on every run) is verified against the CONTRACTS of its callees, which are rebound by scope in this module:
 //   movegen::generate_captures / generate_quiets  -> append an ARBITRARY duplicate-free list of capture-class /
@@ -278,6 +281,7 @@ fn stream(loud: bool) {
 }
 
 //@ obligation: C10.blackbox.stream_full
+//@ status: experimental
 //@ domain: bounded(<= 1 capture + <= 1 quiet)
 //@ functions: engine/search/move_picker.rs::MovePicker::next, engine/search/move_picker.rs::MovePicker::new
 //@ timeout: 1500
@@ -291,6 +295,7 @@ fn vk_c10_blackbox_stream_full() {
 }
 
 //@ obligation: C10.blackbox.stream_loud
+//@ status: experimental
 //@ domain: bounded(<= 1 capture)
 //@ functions: engine/search/move_picker.rs::MovePicker::next, engine/search/move_picker.rs::MovePicker::new_loud
 //@ timeout: 1500
@@ -304,6 +309,7 @@ fn vk_c10_blackbox_stream_loud() {
 }
 
 //@ obligation: C10.canary.blackbox
+//@ status: experimental
 //@ canary: true
 //@ timeout: 1500
 //@ mem_gb: 12
